@@ -184,8 +184,8 @@ def redirectsFollowed (cmds : List TCmd) (calls : List TCall) (evs : List TEv) :
       (match redirectOf "ASK" e.reply with
        | some t => Rv.Hex.encode e'.addr == t &&
            calls.any fun cl => Rv.Hex.encode cl.addr == t &&
-             (let noWrap := cl.items.filter (fun x => !x.startsWith "O:")
-              (noWrap.zip (noWrap.drop 1)).any fun (a, x) => a == "A" && x == toString c.id)
+             -- the command arrives in a call behind an `A` (that it is the `A` of its own unit is `askingOk`)
+             ((cl.items.takeWhile (· != toString c.id)).contains "A" && cl.items.contains (toString c.id))
        | none => true)
 
 def isRedirectReply (r : String) : Bool := (redirectOf "MOVED" r).isSome || (redirectOf "ASK" r).isSome
